@@ -36,8 +36,21 @@ def gen_case(rnd):
     else:
         cfg = GP.gen_config(rnd, safe=False, maxrules=4)
         d, rules = cfg
-        k = rnd.randrange(8)
-        if k == 0:
+        k = rnd.randrange(11)
+        if k == 10:
+            # a rule with 1-20 (or 31-33, 63-65) wildcards whose label refers to the last capture; the battery sends a matching line
+            nw = rnd.choice(list(range(1, 21)) + [31, 32, 33, 63, 64, 65])
+            rules.append(GM.rule(b".".join([b"wc"] + [b"*"] * nw), b"wc_$1", labels=[(b"ab", b"$%d" % nw), (b"cd", b"${%d}-$1" % nw)], help=b"wc"))
+        elif k >= 8:
+            # options of an observer kind on a rule that does not say which kind it is (the defaults, or nothing, decide)
+            if k == 8:
+                rules.append(GM.rule(b"iq.*", b"iq", summary=GM.summ(quantiles=rnd.choice(BOUNDARY_QS), max_age=rnd.choice([0, -10**9, 1, 10**9]),
+                                                                     age_buckets=rnd.choice([0, 1, 5]), buf_cap=rnd.choice([0, 1, 500])), help=b"iq"))
+            else:
+                rules.append(GM.rule(b"ib.*", b"ib", hist=dict(buckets=rnd.choice(BOUNDARY_BUCKETS)), help=b"ib"))
+            if d is not None and rnd.random() < 0.6:
+                d["observer_type"], d["timer_type"] = rnd.choice([None, None, b"histogram", b"summary"]), None
+        elif k == 0:
             rules.append(GM.rule(b"bb.*", b"bb", observer_type=b"histogram", hist=dict(buckets=rnd.choice(BOUNDARY_BUCKETS)), help=b"bb"))
         elif k == 1:
             rules.append(GM.rule(b"bq.*", b"bq", observer_type=b"summary", summary=GM.summ(quantiles=rnd.choice(BOUNDARY_QS), max_age=rnd.choice([0, -10**9, 1, 10**9]),
@@ -73,8 +86,9 @@ def monitor(rep, case, impl, model, payload):
     loaded = impl[0] == "L ok"
     if meta and meta["expected"] != "ok" and loaded:
         rep.violation("an invalid configuration (%s) was accepted" % meta["expected"], dict(payload, yaml=meta["yaml"])); return
-    if meta and meta["expected"] == "ok" and not loaded and impl[0] not in ("L EBadBuckets", "L EBadSummary"):
-        # generated "boundary" configs may legitimately be rejected by the bucket/quantile validation only
+    if meta and meta["expected"] == "ok" and not loaded and impl[0] not in ("L EBadBuckets", "L EBadSummary", "L ESummWithHistOpts", "L EHistWithSummaryOpts"):
+        # generated "boundary" configs may legitimately be rejected: by the bucket/quantile validation, or because options of one
+        # observer kind meet a rule whose (inherited) kind is the other one; the model comparison decides which
         rep.violation("a valid configuration was rejected", dict(payload, yaml=meta["yaml"], impl=impl[0]), no_input=True); return
     if loaded:
         rep.nontrivial(meta["yaml"] if meta else tuple(ops))
